@@ -12,21 +12,33 @@ pub open spec fn preds_ok(ps: Seq<Polytope>, in_dim: usize) -> bool {
 pub open spec fn on_stack(s: Seq<DfsNodeData>, i: usize) -> bool { exists|k: int| 0 <= k < s.len() && (#[trigger] s[k]).index == i }
 pub open spec fn tracked(s: Seq<DfsNodeData>, vis: Set<usize>, i: usize) -> bool { vis.contains(i) || on_stack(s, i) }
 
+// stack entries exist, are unvisited, hang below a visited node; depths are bounded by the number of visits
+pub open spec fn el_entries<const K: usize>(a: AArena<K>, root: usize, s: Seq<DfsNodeData>, vis: Set<usize>) -> bool {
+    forall|k: int| 0 <= k < s.len() ==> a.dom().contains((#[trigger] s[k]).index) && !vis.contains(s[k].index) && s[k].depth <= vis.len()
+            && (s[k].index == root || (a[s[k].index].parent is Some && vis.contains(a[s[k].index].parent.unwrap())))
+}
+// ... are pairwise distinct, and of two siblings on the stack the upper one still counts a remaining sibling
+pub open spec fn el_pairs<const K: usize>(a: AArena<K>, s: Seq<DfsNodeData>) -> bool {
+    forall|k1: int, k2: int| 0 <= k1 < k2 < s.len() ==> (#[trigger] s[k1]).index != (#[trigger] s[k2]).index
+            && (a[s[k1].index].parent == a[s[k2].index].parent ==> s[k2].n_remaining > 0)
+}
+// visited nodes are closed under parent
+pub open spec fn el_closed<const K: usize>(a: AArena<K>, root: usize, vis: Set<usize>) -> bool {
+    forall|x: usize| #![trigger vis.contains(x)] vis.contains(x) && a.dom().contains(x) && x != root ==> a[x].parent is Some && vis.contains(a[x].parent.unwrap())
+}
+// nothing that is visited or waiting hangs below a node cached infeasible (except the root, which is never tested, and the node in progress)
+pub open spec fn el_clean<const K: usize>(a: AArena<K>, root: usize, s: Seq<DfsNodeData>, vis: Set<usize>, ex: usize) -> bool {
+    forall|x: usize| #![trigger a[x].parent] tracked(s, vis, x) && a.dom().contains(x) && a[x].parent is Some
+            ==> a[x].parent.unwrap() == root || a[x].parent.unwrap() == ex || !(a[a[x].parent.unwrap()].value.state is Infeasible)
+}
 #[verifier::opaque]
 pub open spec fn el_inv<const K: usize>(a: AArena<K>, root: usize, s: Seq<DfsNodeData>, vis: Set<usize>, ex: usize, d0: Set<usize>) -> bool {
     &&& wf_at(a, Some(root))
     &&& a.dom().subset_of(d0) && vis.subset_of(d0)
-    // stack entries exist, are unvisited, hang below a visited node; depths are bounded by the number of visits
-    &&& forall|k: int| 0 <= k < s.len() ==> a.dom().contains((#[trigger] s[k]).index) && !vis.contains(s[k].index) && s[k].depth <= vis.len()
-            && (s[k].index == root || (a[s[k].index].parent is Some && vis.contains(a[s[k].index].parent.unwrap())))
-    // ... are pairwise distinct, and of two siblings on the stack the upper one still counts a remaining sibling
-    &&& forall|k1: int, k2: int| 0 <= k1 < k2 < s.len() ==> (#[trigger] s[k1]).index != (#[trigger] s[k2]).index
-            && (a[s[k1].index].parent == a[s[k2].index].parent ==> s[k2].n_remaining > 0)
-    // visited nodes are closed under parent
-    &&& forall|x: usize| #![trigger vis.contains(x)] vis.contains(x) && a.dom().contains(x) && x != root ==> a[x].parent is Some && vis.contains(a[x].parent.unwrap())
-    // nothing that is visited or waiting hangs below a node cached infeasible (except the root, which is never tested, and the node in progress)
-    &&& forall|x: usize| #![trigger a[x].parent] tracked(s, vis, x) && a.dom().contains(x) && a[x].parent is Some
-            ==> a[x].parent.unwrap() == root || a[x].parent.unwrap() == ex || !(a[a[x].parent.unwrap()].value.state is Infeasible)
+    &&& el_entries(a, root, s, vis)
+    &&& el_pairs(a, s)
+    &&& el_closed(a, root, vis)
+    &&& el_clean(a, root, s, vis, ex)
 }
 // no visited or waiting node hangs directly below n
 pub open spec fn no_kid_tracked<const K: usize>(a: AArena<K>, s: Seq<DfsNodeData>, vis: Set<usize>, n: usize) -> bool {
@@ -45,7 +57,7 @@ pub open spec fn value_written<const K: usize>(a0: AArena<K>, a1: AArena<K>, n: 
 // and what disappears is p itself or lies at / below a child of p that is cached infeasible
 pub open spec fn pruned_step<const K: usize>(a1: AArena<K>, a2: AArena<K>, p: usize, root: usize) -> bool {
     &&& a2.dom().subset_of(a1.dom())
-    &&& forall|i: usize| #![trigger a2[i]] a2.dom().contains(i) ==> a2[i].value == a1[i].value
+    &&& forall|i: usize| #![trigger a2[i]] a2.dom().contains(i) ==> a2[i].value == a1[i].value && a2[i].isleaf == a1[i].isleaf
             && (a2[i].parent == a1[i].parent || (p != root && a1[i].parent == Some(p) && a1[p].parent is Some && a2[i].parent == a1[p].parent))
     &&& forall|i: usize| #![trigger a2.dom().contains(i)] a1.dom().contains(i) && !a2.dom().contains(i) ==> (i == p && p != root)
             || exists|c: usize| #![trigger a1[c].parent] a1.dom().contains(c) && a1[c].parent == Some(p) && a1[c].value.state is Infeasible && (i == c || desc(a1, c, i))
@@ -72,18 +84,18 @@ pub proof fn lemma_el_stack_ok<const K: usize>(a: AArena<K>, root: usize, s: Seq
     vstd::set_lib::lemma_len_subset(vis, d0);
     vstd::set_lib::lemma_len_subset(a.dom(), d0);
 }
-// the children pushed for the popped node: exist, hang below it, are unvisited and not yet on the stack
-pub proof fn lemma_el_next_kids<const K: usize>(a: AArena<K>, root: usize, s0: Seq<DfsNodeData>, it: DfsNodeData, vis: Set<usize>, d0: Set<usize>)
-    requires el_inv(a, root, s0, vis, root, d0), s0.len() > 0, it == s0.last(), it.depth < usize::MAX
-    ensures
-        forall|j: int| 0 <= j < kid_items(a[it.index].children, 0, (it.depth + 1) as usize).len() ==> {
-            let kd = (#[trigger] kid_items(a[it.index].children, 0, (it.depth + 1) as usize).reverse()[j]);
-            a.dom().contains(kd.index) && a[kd.index].parent == Some(it.index)
-            && !vis.insert(it.index).contains(kd.index) && kd.depth == (it.depth + 1) as usize && !on_stack(s0.drop_last(), kd.index)
-            && exists|l: int| 0 <= l < K && #[trigger] a[it.index].children[l] == Some(kd.index) && kd.n_remaining == count_some_from(a[it.index].children, l + 1)
-        }
+// the children pushed for the popped node n: exist, hang below n, are unvisited, not yet on the stack, and carry the sibling count of their slot
+pub open spec fn pushed_ok<const K: usize>(a: AArena<K>, rest: Seq<DfsNodeData>, kids: Seq<DfsNodeData>, n: usize, v1: Set<usize>, dp: usize) -> bool {
+    forall|j: int| 0 <= j < kids.len() ==> a.dom().contains((#[trigger] kids[j]).index) && a[kids[j].index].parent == Some(n)
+        && !v1.contains(kids[j].index) && kids[j].depth == dp && !on_stack(rest, kids[j].index)
+        && exists|l: int| 0 <= l < K && #[trigger] a[n].children[l] == Some(kids[j].index) && kids[j].n_remaining == count_some_from(a[n].children, l + 1)
+}
+pub proof fn lemma_el_next_kids<const K: usize>(a: AArena<K>, root: usize, s0: Seq<DfsNodeData>, it: DfsNodeData, vis: Set<usize>)
+    requires wf_at(a, Some(root)), el_entries(a, root, s0, vis), el_closed(a, root, vis), s0.len() > 0, it == s0.last(), it.depth < usize::MAX
+    ensures pushed_ok(a, s0.drop_last(), kid_items(a[it.index].children, 0, (it.depth + 1) as usize).reverse(), it.index, vis.insert(it.index), (it.depth + 1) as usize),
+        forall|j1: int, j2: int| 0 <= j1 < j2 < kid_items(a[it.index].children, 0, (it.depth + 1) as usize).len() ==>
+            (#[trigger] kid_items(a[it.index].children, 0, (it.depth + 1) as usize).reverse()[j1]).n_remaining < (#[trigger] kid_items(a[it.index].children, 0, (it.depth + 1) as usize).reverse()[j2]).n_remaining,
 {
-    reveal(el_inv);
     let n = it.index;
     let v1 = vis.insert(n);
     let rest = s0.drop_last();
@@ -93,12 +105,9 @@ pub proof fn lemma_el_next_kids<const K: usize>(a: AArena<K>, root: usize, s0: S
     assert(s0[s0.len() - 1] == it);
     lemma_kid_items_props(a[n].children, 0, dp);
     let d = choose|d: Map<usize, nat>| ranked(a, d);
-    assert forall|j: int| 0 <= j < ki.len() implies ({
-            let kd = (#[trigger] kids[j]);
-            a.dom().contains(kd.index) && a[kd.index].parent == Some(n)
-            && !v1.contains(kd.index) && kd.depth == dp && !on_stack(rest, kd.index)
-            && exists|l: int| 0 <= l < K && #[trigger] a[n].children[l] == Some(kd.index) && kd.n_remaining == count_some_from(a[n].children, l + 1)
-        }) by {
+    assert forall|j: int| 0 <= j < kids.len() implies a.dom().contains((#[trigger] kids[j]).index) && a[kids[j].index].parent == Some(n)
+        && !v1.contains(kids[j].index) && kids[j].depth == dp && !on_stack(rest, kids[j].index)
+        && exists|l: int| 0 <= l < K && #[trigger] a[n].children[l] == Some(kids[j].index) && kids[j].n_remaining == count_some_from(a[n].children, l + 1) by {
         let c = kids[j].index;
         assert(kids[j] == ki[ki.len() - 1 - j]);
         let l = choose|l: int| 0 <= l < K && #[trigger] a[n].children[l] == Some(c) && kids[j].n_remaining == count_some_from(a[n].children, l + 1);
@@ -107,35 +116,34 @@ pub proof fn lemma_el_next_kids<const K: usize>(a: AArena<K>, root: usize, s0: S
         if vis.contains(c) { assert(vis.contains(a[c].parent.unwrap())); }
         if on_stack(rest, c) { let k = choose|k: int| 0 <= k < rest.len() && (#[trigger] rest[k]).index == c; assert(s0[k] == rest[k]); assert(vis.contains(n)); }
     }
+    assert forall|j1: int, j2: int| 0 <= j1 < j2 < ki.len() implies (#[trigger] kids[j1]).n_remaining < (#[trigger] kids[j2]).n_remaining by {
+        assert(kids[j1] == ki[ki.len() - 1 - j1] && kids[j2] == ki[ki.len() - 1 - j2]);
+    }
 }
-// one step of the traversal: the top entry is popped and becomes the node in progress, its children are pushed
-pub proof fn lemma_el_next<const K: usize>(a: AArena<K>, root: usize, s0: Seq<DfsNodeData>, s1: Seq<DfsNodeData>, lp: usize, it: DfsNodeData, vis: Set<usize>, d0: Set<usize>)
-    requires el_inv(a, root, s0, vis, root, d0), dfs_step(a, s0, s1, lp, Some(it)), d0.len() <= i32::MAX
-    ensures el_inv(a, root, s1, vis.insert(it.index), it.index, d0),
-        a.dom().contains(it.index), !vis.contains(it.index),
-        it.index != root ==> a[it.index].parent is Some && vis.contains(a[it.index].parent.unwrap()) && a.dom().contains(a[it.index].parent.unwrap()),
-        it.n_remaining == 0 && it.index != root ==> no_sibling_waiting(a, s1, a[it.index].parent),
-        vis.insert(it.index).len() == vis.len() + 1, vis.insert(it.index).len() <= d0.len(),
+pub proof fn lemma_el_next_entries<const K: usize>(a: AArena<K>, root: usize, s0: Seq<DfsNodeData>, kids: Seq<DfsNodeData>, it: DfsNodeData, vis: Set<usize>)
+    requires el_entries(a, root, s0, vis), el_pairs(a, s0), s0.len() > 0, it == s0.last(), it.depth < usize::MAX,
+        pushed_ok(a, s0.drop_last(), kids, it.index, vis.insert(it.index), (it.depth + 1) as usize), vis.insert(it.index).len() == vis.len() + 1,
+    ensures el_entries(a, root, s0.drop_last() + kids, vis.insert(it.index))
 {
-    reveal(el_inv);
-    vstd::set_lib::lemma_len_subset(vis.insert(it.index), d0);
-    let n = it.index;
-    let v1 = vis.insert(n);
     let rest = s0.drop_last();
-    let dp = (it.depth + 1) as usize;
-    let ki = kid_items(a[n].children, 0, dp);
-    let kids = ki.reverse();
+    let s1 = rest + kids;
+    let v1 = vis.insert(it.index);
     assert(s0[s0.len() - 1] == it);
-    assert(s1 == rest + kids);
-    vstd::set_lib::lemma_len_subset(vis, d0);
-    assert(v1.len() == vis.len() + 1);
-    lemma_kid_items_props(a[n].children, 0, dp);
-    let d = choose|d: Map<usize, nat>| ranked(a, d);
-    lemma_el_next_kids(a, root, s0, it, vis, d0);
     assert forall|k: int| 0 <= k < s1.len() implies a.dom().contains((#[trigger] s1[k]).index) && !v1.contains(s1[k].index) && s1[k].depth <= v1.len()
             && (s1[k].index == root || (a[s1[k].index].parent is Some && v1.contains(a[s1[k].index].parent.unwrap()))) by {
-        if k < rest.len() { assert(s1[k] == s0[k]); } else { assert(s1[k] == kids[k - rest.len()]); }
+        if k < rest.len() { assert(s1[k] == s0[k]); assert(s0[k].index != s0[s0.len() - 1].index); } else { assert(s1[k] == kids[k - rest.len()]); assert(it.depth <= vis.len()); }
     }
+}
+pub proof fn lemma_el_next_pairs<const K: usize>(a: AArena<K>, root: usize, s0: Seq<DfsNodeData>, kids: Seq<DfsNodeData>, it: DfsNodeData, vis: Set<usize>)
+    requires wf_at(a, Some(root)), el_entries(a, root, s0, vis), el_pairs(a, s0), s0.len() > 0, it == s0.last(), it.depth < usize::MAX,
+        pushed_ok(a, s0.drop_last(), kids, it.index, vis.insert(it.index), (it.depth + 1) as usize),
+        forall|j1: int, j2: int| 0 <= j1 < j2 < kids.len() ==> (#[trigger] kids[j1]).n_remaining < (#[trigger] kids[j2]).n_remaining,
+    ensures el_pairs(a, s0.drop_last() + kids)
+{
+    let n = it.index;
+    let rest = s0.drop_last();
+    let s1 = rest + kids;
+    assert(s0[s0.len() - 1] == it);
     assert forall|k1: int, k2: int| 0 <= k1 < k2 < s1.len() implies (#[trigger] s1[k1]).index != (#[trigger] s1[k2]).index
             && (a[s1[k1].index].parent == a[s1[k2].index].parent ==> s1[k2].n_remaining > 0) by {
         if k2 < rest.len() { assert(s1[k1] == s0[k1] && s1[k2] == s0[k2]); }
@@ -151,7 +159,6 @@ pub proof fn lemma_el_next<const K: usize>(a: AArena<K>, root: usize, s0: Seq<Df
         } else {
             let j1 = k1 - rest.len(); let j2 = k2 - rest.len();
             assert(s1[k1] == kids[j1] && s1[k2] == kids[j2]);
-            assert(kids[j1] == ki[ki.len() - 1 - j1] && kids[j2] == ki[ki.len() - 1 - j2]);
             assert(kids[j2].n_remaining > kids[j1].n_remaining);
             if kids[j1].index == kids[j2].index {
                 let c = kids[j1].index;
@@ -161,6 +168,17 @@ pub proof fn lemma_el_next<const K: usize>(a: AArena<K>, root: usize, s0: Seq<Df
             }
         }
     }
+}
+pub proof fn lemma_el_next_clean<const K: usize>(a: AArena<K>, root: usize, s0: Seq<DfsNodeData>, kids: Seq<DfsNodeData>, it: DfsNodeData, vis: Set<usize>)
+    requires el_entries(a, root, s0, vis), el_closed(a, root, vis), el_clean(a, root, s0, vis, root), s0.len() > 0, it == s0.last(), it.depth < usize::MAX,
+        pushed_ok(a, s0.drop_last(), kids, it.index, vis.insert(it.index), (it.depth + 1) as usize),
+    ensures el_closed(a, root, vis.insert(it.index)), el_clean(a, root, s0.drop_last() + kids, vis.insert(it.index), it.index)
+{
+    let n = it.index;
+    let rest = s0.drop_last();
+    let s1 = rest + kids;
+    let v1 = vis.insert(n);
+    assert(s0[s0.len() - 1] == it);
     assert forall|x: usize| #![trigger v1.contains(x)] v1.contains(x) && a.dom().contains(x) && x != root implies a[x].parent is Some && v1.contains(a[x].parent.unwrap()) by {
         if x == n { } else { assert(vis.contains(x)); }
     }
@@ -174,12 +192,44 @@ pub proof fn lemma_el_next<const K: usize>(a: AArena<K>, root: usize, s0: Seq<Df
             else { assert(s1[k] == kids[k - rest.len()]); }
         }
     }
-    if it.n_remaining == 0 && n != root {
-        assert forall|k: int| 0 <= k < s1.len() implies a[(#[trigger] s1[k]).index].parent != a[n].parent by {
-            if k < rest.len() { assert(s1[k] == s0[k]); }
-            else { assert(s1[k] == kids[k - rest.len()]); assert(d[a[n].parent.unwrap()] < d[n]); }
-        }
+}
+pub proof fn lemma_el_next_last<const K: usize>(a: AArena<K>, root: usize, s0: Seq<DfsNodeData>, kids: Seq<DfsNodeData>, it: DfsNodeData, vis: Set<usize>)
+    requires wf_at(a, Some(root)), el_entries(a, root, s0, vis), el_pairs(a, s0), s0.len() > 0, it == s0.last(), it.depth < usize::MAX, it.n_remaining == 0, it.index != root,
+        pushed_ok(a, s0.drop_last(), kids, it.index, vis.insert(it.index), (it.depth + 1) as usize),
+    ensures no_sibling_waiting(a, s0.drop_last() + kids, a[it.index].parent)
+{
+    let n = it.index;
+    let rest = s0.drop_last();
+    let s1 = rest + kids;
+    assert(s0[s0.len() - 1] == it);
+    let d = choose|d: Map<usize, nat>| ranked(a, d);
+    assert forall|k: int| 0 <= k < s1.len() implies a[(#[trigger] s1[k]).index].parent != a[n].parent by {
+        if k < rest.len() { assert(s1[k] == s0[k]); }
+        else { assert(s1[k] == kids[k - rest.len()]); assert(a[n].parent is Some); assert(d[a[n].parent.unwrap()] < d[n]); }
     }
+}
+// one step of the traversal: the top entry is popped and becomes the node in progress, its children are pushed
+pub proof fn lemma_el_next<const K: usize>(a: AArena<K>, root: usize, s0: Seq<DfsNodeData>, s1: Seq<DfsNodeData>, lp: usize, it: DfsNodeData, vis: Set<usize>, d0: Set<usize>)
+    requires el_inv(a, root, s0, vis, root, d0), dfs_step(a, s0, s1, lp, Some(it)), d0.len() <= i32::MAX
+    ensures el_inv(a, root, s1, vis.insert(it.index), it.index, d0),
+        a.dom().contains(it.index), !vis.contains(it.index),
+        it.index != root ==> a[it.index].parent is Some && vis.contains(a[it.index].parent.unwrap()) && a.dom().contains(a[it.index].parent.unwrap()),
+        it.n_remaining == 0 && it.index != root ==> no_sibling_waiting(a, s1, a[it.index].parent),
+        vis.insert(it.index).len() == vis.len() + 1, vis.insert(it.index).len() <= d0.len(),
+{
+    reveal(el_inv);
+    vstd::set_lib::lemma_len_subset(vis.insert(it.index), d0);
+    vstd::set_lib::lemma_len_subset(vis, d0);
+    let n = it.index;
+    let kids = kid_items(a[n].children, 0, (it.depth + 1) as usize).reverse();
+    assert(s0[s0.len() - 1] == it);
+    assert(s1 == s0.drop_last() + kids);
+    assert(vis.insert(n).len() == vis.len() + 1);
+    lemma_el_next_kids(a, root, s0, it, vis);
+    lemma_el_next_entries(a, root, s0, kids, it, vis);
+    lemma_el_next_pairs(a, root, s0, kids, it, vis);
+    lemma_el_next_clean(a, root, s0, kids, it, vis);
+    if it.n_remaining == 0 && n != root { lemma_el_next_last(a, root, s0, kids, it, vis); }
 }
 // the pushed items: each is a child, their n_remaining counts the later siblings (so in the reversed order the lower one has fewer)
 pub proof fn lemma_kid_items_props<const K: usize>(ch: [Option<usize>; K], lo: int, depth: usize)
@@ -343,9 +393,10 @@ pub proof fn lemma_el_forward<const K: usize>(a1: AArena<K>, a2: AArena<K>, root
 }
 // what the removal of the infeasible children of p means for the bookkeeping
 pub proof fn lemma_removed_summary<const K: usize>(a0: AArena<K>, am: AArena<K>, root: usize, p: usize)
-    requires wf_at(a0, Some(root)), removed_set(a0, am, p, infeasible_slots(a0, p))
+    requires wf_at(a0, Some(root)), removed_set(a0, am, p, infeasible_slots(a0, p)),
+        exists|f: int| 0 <= f < K && !kid_in_state(a0, p, f, false) && (#[trigger] a0[p].children[f]) is Some,
     ensures am.dom().subset_of(a0.dom()), am.dom().contains(p),
-        forall|i: usize| #![trigger am[i]] am.dom().contains(i) ==> am[i].value == a0[i].value && am[i].parent == a0[i].parent,
+        forall|i: usize| #![trigger am[i]] am.dom().contains(i) ==> am[i].value == a0[i].value && am[i].parent == a0[i].parent && am[i].isleaf == a0[i].isleaf,
         forall|l: int| 0 <= l < K && !kid_in_state(a0, p, l, false) ==> #[trigger] am[p].children[l] == a0[p].children[l],
         forall|i: usize| #![trigger am.dom().contains(i)] a0.dom().contains(i) && !am.dom().contains(i) ==>
             exists|c: usize| #![trigger a0[c].parent] a0.dom().contains(c) && a0[c].parent == Some(p) && a0[c].value.state is Infeasible && (i == c || desc(a0, c, i)),
@@ -360,8 +411,12 @@ pub proof fn lemma_removed_summary<const K: usize>(a0: AArena<K>, am: AArena<K>,
         assert(kid_in_state(a0, p, l, false));
         assert(a0.dom().contains(c) && a0[c].parent == Some(p));
     }
-    assert forall|i: usize| #![trigger am[i]] am.dom().contains(i) implies am[i].value == a0[i].value && am[i].parent == a0[i].parent by { if i != p { assert(am[i] == a0[i]); } }
     assert forall|l: int| 0 <= l < K && !kid_in_state(a0, p, l, false) implies #[trigger] am[p].children[l] == a0[p].children[l] by { assert(!ls.contains(l)); }
+    let f = choose|f: int| 0 <= f < K && !kid_in_state(a0, p, f, false) && (#[trigger] a0[p].children[f]) is Some;
+    assert(am[p].children[f] == a0[p].children[f]);
+    assert(!no_kids(am[p]) && !no_kids(a0[p]));
+    assert(a0[p].isleaf == no_kids(a0[p]));
+    assert forall|i: usize| #![trigger am[i]] am.dom().contains(i) implies am[i].value == a0[i].value && am[i].parent == a0[i].parent && am[i].isleaf == a0[i].isleaf by { if i != p { assert(am[i] == a0[i]); } }
 }
 // forward_if_redundant's contract gives the summary the bookkeeping needs
 pub proof fn lemma_fwd_pruned<const K: usize>(a0: AArena<K>, a2: AArena<K>, root: usize, p: usize)
@@ -372,33 +427,48 @@ pub proof fn lemma_fwd_pruned<const K: usize>(a0: AArena<K>, a2: AArena<K>, root
         let ls = infeasible_slots(a0, p);
         let am = choose|am: AArena<K>| #[trigger] removed_set(a0, am, p, ls) && wf_at(am, Some(root))
             && (forall|f: int| #[trigger] kid_in_state(a0, p, f, true) ==> merge_post(am, a2, p, f as usize, Some(root) == Some(p)));
-        lemma_removed_summary(a0, am, root, p);
         lemma_count_exists(a0, p, 0, true);
         let f = choose|f: int| 0 <= f < K && kid_in_state(a0, p, f, true);
         assert(merge_post(am, a2, p, f as usize, Some(root) == Some(p)));
-        assert(!kid_in_state(a0, p, f, false));
-        let cf = a0[p].children[f].unwrap();
-        assert(am[p].children[f] == a0[p].children[f]);
-        assert(a0.dom().contains(cf) && a0[cf].parent == Some(p));      // kids_ok
-        if root == p {
-            assert(a2 == am);
-        } else {
-            let gl = choose|gl: int| #[trigger] merged(am, a2, p, f as usize, gl);
-            lemma_merged_summary(a0, am, a2, root, p, f, gl);
-        }
+        lemma_fwd_pruned_act(a0, am, a2, root, p, f);
     }
+}
+pub proof fn lemma_fwd_pruned_act<const K: usize>(a0: AArena<K>, am: AArena<K>, a2: AArena<K>, root: usize, p: usize, f: int)
+    requires wf_at(a0, Some(root)), a0.dom().contains(p), removed_set(a0, am, p, infeasible_slots(a0, p)), merge_post(am, a2, p, f as usize, root == p), kid_in_state(a0, p, f, true)
+    ensures pruned_step(a0, a2, p, root)
+{
+    assert(!kid_in_state(a0, p, f, false) && a0[p].children[f] is Some);
+    lemma_removed_summary(a0, am, root, p);
+    let cf = a0[p].children[f].unwrap();
+    assert(am[p].children[f] == a0[p].children[f]);
+    assert(a0.dom().contains(cf) && a0[cf].parent == Some(p));      // kids_ok
+    if root == p {
+        assert(a2 == am);
+        lemma_root_summary(a0, am, root, p);
+    } else {
+        let gl = choose|gl: int| #[trigger] merged(am, a2, p, f as usize, gl);
+        lemma_merged_summary(a0, am, a2, root, p, f, gl);
+    }
+}
+pub proof fn lemma_root_summary<const K: usize>(a0: AArena<K>, am: AArena<K>, root: usize, p: usize)
+    requires am.dom().subset_of(a0.dom()),
+        forall|i: usize| #![trigger am[i]] am.dom().contains(i) ==> am[i].value == a0[i].value && am[i].parent == a0[i].parent && am[i].isleaf == a0[i].isleaf,
+        forall|i: usize| #![trigger am.dom().contains(i)] a0.dom().contains(i) && !am.dom().contains(i) ==>
+            exists|c: usize| #![trigger a0[c].parent] a0.dom().contains(c) && a0[c].parent == Some(p) && a0[c].value.state is Infeasible && (i == c || desc(a0, c, i)),
+    ensures pruned_step(a0, am, p, root)
+{
 }
 pub proof fn lemma_merged_summary<const K: usize>(a0: AArena<K>, am: AArena<K>, a2: AArena<K>, root: usize, p: usize, f: int, gl: int)
     requires wf_at(a0, Some(root)), 0 <= f < K, merged(am, a2, p, f as usize, gl), am.dom().subset_of(a0.dom()), p != root,
         a0[p].children[f] is Some, am[p].children[f] == a0[p].children[f], a0[a0[p].children[f].unwrap()].parent == Some(p),
-        forall|i: usize| #![trigger am[i]] am.dom().contains(i) ==> am[i].value == a0[i].value && am[i].parent == a0[i].parent,
+        forall|i: usize| #![trigger am[i]] am.dom().contains(i) ==> am[i].value == a0[i].value && am[i].parent == a0[i].parent && am[i].isleaf == a0[i].isleaf,
         forall|i: usize| #![trigger am.dom().contains(i)] a0.dom().contains(i) && !am.dom().contains(i) ==>
             exists|c: usize| #![trigger a0[c].parent] a0.dom().contains(c) && a0[c].parent == Some(p) && a0[c].value.state is Infeasible && (i == c || desc(a0, c, i)),
     ensures pruned_step(a0, a2, p, root)
 {
     let g = am[p].parent.unwrap();
     let cf = am[p].children[f].unwrap();
-    assert forall|i: usize| #![trigger a2[i]] a2.dom().contains(i) implies a2[i].value == a0[i].value
+    assert forall|i: usize| #![trigger a2[i]] a2.dom().contains(i) implies a2[i].value == a0[i].value && a2[i].isleaf == a0[i].isleaf
         && (a2[i].parent == a0[i].parent || (p != root && a0[i].parent == Some(p) && a0[p].parent is Some && a2[i].parent == a0[p].parent)) by {
         assert(am.dom().contains(i));
         if i != g && i != cf { assert(a2[i] == am[i]); }
@@ -411,15 +481,16 @@ pub proof fn lemma_merged_summary<const K: usize>(a0: AArena<K>, am: AArena<K>, 
 // survivors keep their function, nothing is added, witnesses stay non-empty
 pub open spec fn kept_ok<const K: usize>(a0: AArena<K>, a: AArena<K>, in_dim: usize) -> bool {
     &&& a.dom().subset_of(a0.dom())
-    &&& forall|i: usize| #![trigger a[i].value] a.dom().contains(i) ==> a[i].value.aff == a0[i].value.aff
+    // ... and its kind: a decision never turns into a terminal (or vice versa)
+    &&& forall|i: usize| #![trigger a[i].value] a.dom().contains(i) ==> a[i].value.aff == a0[i].value.aff && a[i].isleaf == a0[i].isleaf
     &&& vals_ok(a, in_dim)
 }
 pub proof fn lemma_kept_pruned<const K: usize>(a0: AArena<K>, a1: AArena<K>, a2: AArena<K>, in_dim: usize, p: usize, root: usize)
     requires kept_ok(a0, a1, in_dim), pruned_step(a1, a2, p, root)
     ensures kept_ok(a0, a2, in_dim)
 {
-    assert forall|i: usize| #![trigger a2[i].value] a2.dom().contains(i) implies a2[i].value.aff == a0[i].value.aff && a2[i].value == a1[i].value by {
-        assert(a2[i].value == a1[i].value);
+    assert forall|i: usize| #![trigger a2[i].value] a2.dom().contains(i) implies a2[i].value.aff == a0[i].value.aff && a2[i].value == a1[i].value && a2[i].isleaf == a0[i].isleaf by {
+        assert(a2[i].value == a1[i].value && a2[i].isleaf == a1[i].isleaf);
         assert(a1.dom().contains(i));
     }
 }
@@ -428,19 +499,39 @@ pub proof fn lemma_kept_write<const K: usize>(a0: AArena<K>, a1: AArena<K>, a2: 
         a2[n].value.state matches NodeState::FeasibleWitness(w) ==> w@.len() > 0
     ensures kept_ok(a0, a2, in_dim)
 {
-    assert forall|i: usize| #![trigger a2[i].value] a2.dom().contains(i) implies a2[i].value.aff == a0[i].value.aff && a2[i].value.aff.ok() && a2[i].value.aff.mat.ncols() == in_dim
+    assert forall|i: usize| #![trigger a2[i].value] a2.dom().contains(i) implies a2[i].value.aff == a0[i].value.aff && a2[i].isleaf == a0[i].isleaf && a2[i].value.aff.ok() && a2[i].value.aff.mat.ncols() == in_dim
         && (a2[i].value.state matches NodeState::FeasibleWitness(w) ==> w@.len() > 0) by {
         if i != n { assert(a2[i] == a1[i]); }
     }
 }
 pub proof fn lemma_kept_removed<const K: usize>(a0: AArena<K>, a1: AArena<K>, a2: AArena<K>, in_dim: usize, parent: usize, label: usize, e: bool)
-    requires kept_ok(a0, a1, in_dim), remove_child_post(a1, a2, parent, label, e)
+    requires kept_ok(a0, a1, in_dim), remove_child_post(a1, a2, parent, label, e), leaf_ok(a1),
+        // the decision keeps another branch
+        a1.dom().contains(parent) ==> count_some_from(a1[parent].children, 0) >= 2,
     ensures kept_ok(a0, a2, in_dim), a2.dom().subset_of(a1.dom())
 {
     if !e {
-        assert forall|i: usize| #![trigger a2[i].value] a2.dom().contains(i) implies a1.dom().contains(i) && a2[i].value == a1[i].value by {
+        lemma_two_kids(a1[parent], 0, label as int);
+        let l2 = choose|l2: int| 0 <= l2 < K && l2 != label && (#[trigger] a1[parent].children[l2]).is_some();
+        assert(a2[parent].children[l2] == a1[parent].children[l2]) by { assert(a2[parent].children@[l2] == a1[parent].children@[l2]); }
+        assert(!no_kids(a2[parent]) && !no_kids(a1[parent]));
+        assert forall|i: usize| #![trigger a2[i].value] a2.dom().contains(i) implies a1.dom().contains(i) && a2[i].value == a1[i].value && a2[i].isleaf == a1[i].isleaf by {
             if i != parent { assert(a2[i] == a1[i]); }
         }
+    }
+}
+pub proof fn lemma_two_kids<N, const K: usize>(nd: TreeNode<N, K>, lo: int, label: int)
+    requires 0 <= lo <= K, count_some_from(nd.children, lo) >= 2
+    ensures exists|l2: int| lo <= l2 < K && l2 != label && (#[trigger] nd.children[l2]).is_some()
+    decreases K - lo
+{
+    if lo < K {
+        if nd.children[lo].is_some() && lo != label { }
+        else if nd.children[lo].is_some() {
+            lemma_count_zero_no_kids(nd, lo + 1);
+            let l2 = choose|l2: int| lo + 1 <= l2 < K && !(#[trigger] nd.children[l2]).is_none();
+            assert(nd.children[l2].is_some());
+        } else { lemma_two_kids(nd, lo + 1, label); }
     }
 }
 // ---- end elim_spec ----
